@@ -169,6 +169,9 @@ native {
    eqrel_ternary_protocol_le3 => |s, r| { eqrel::protocol3::<3>(s, r) },
    eqrel_ternary_protocol_le4 => |s, r| { eqrel::protocol3::<4>(s, r) },
    eqrel_ternary_protocol_le5 => |s, r| { eqrel::protocol3::<5>(s, r) },
+   eqrel_ternary_protocol_le6 => |s, r| { eqrel::protocol3::<6>(s, r) },
+   trrel_protocol_le6 => |s, r| { trrel_prov::protocol2::<6>(s, r) },
+   trrel_ternary_protocol_le6 => |s, r| { trrel_prov::protocol3::<6>(s, r) },
    trrel_protocol_le4 => |s, r| { trrel_prov::protocol2::<4>(s, r) },
    trrel_protocol_le5 => |s, r| { trrel_prov::protocol2::<5>(s, r) },
    trrel_ternary_protocol_le3 => |s, r| { trrel_prov::protocol3::<3>(s, r) },
